@@ -342,6 +342,6 @@ PROPS['C09'] = dict(
                   'the harness XML writer; encoding/xml and inspectxml tokenisation are exercised, not modelled'],
     assumptions=['by the letter of production 7.2.21 an empty property element carrying only rdf:datatype denotes a blank node; model and decoder both follow it'],
     explanation='the decoder is run against an executable specification (the model) on grammar-directed documents; theorems state facts of that specification for documents of any size',
-    level_text='Proof (partial): C09_li_numbering, C09_li_item, C09_language_scope, C09_base_scope over all documents of the model; equality of decoder and model by exploration over grammar-directed documents (the model is the specification: a difference is a violation).',
+    level_text='Proof (partial): C09_flat_document_denotes (writer then mapping is the identity on graphs of any size, under any base), C09_li_numbering, C09_li_item, C09_language_scope, C09_base_scope over all documents of the model; equality of decoder and model by exploration over grammar-directed documents (the model is the specification: a difference is a violation).',
     level_note='Fixes made while building this check: empty property element language, rdf:type property attribute on property elements, xml:base / xml:lang scope of property elements; earlier: zero offset ranges, language-tagged datatypes, re-parse after error.',
 )
